@@ -152,6 +152,7 @@ static int hist_core(const case_t *c, int emit)
     jo_int("n", n); jo_int("nnz", H.G.nnz);
     char dig[1024]; dig[0] = 0; size_t dl = 0;
     char infos[512]; infos[0] = 0; size_t il = 0;
+    int_t *retired[64]; int nretired = 0; long pp_moves = 0;
     long nops = 0, nfact = 0, nrefact = 0, nsolve = 0, usepr_kept = 0, usepr_changed = 0, usepr_undec = 0, inbuf_checked = 0, queries = 0;
     size_t heap_after_rep[8]; long live_after_rep[8]; int nrepdone = 0;
     int opi = 0, stop = 0;
@@ -215,6 +216,16 @@ static int hist_core(const case_t *c, int emit)
                 if (!refact) { H.lwork = lwork > 0 ? lwork : 0; }
                 if (!refact) get_perm_c(ord, &H.A, H.perm_c);
                 if (refact || op == 'P') memcpy(H.perm_r_prev, H.perm_r, n * sizeof(int_t));
+                if (refact && cint(c, "pp", 0) && nretired + 2 <= 64) {
+                    /* the caller hands over the permutations in OTHER arrays than at the previous call (ping-pong buffers, a copy made
+                       to compare pivots afterwards): same contents, new addresses; the old arrays stay allocated but are poisoned, so a
+                       pointer the library kept from an earlier call no longer leads to valid data */
+                    int_t *nr = xmalloc((n + 1) * sizeof(int_t)), *nc = xmalloc((n + 1) * sizeof(int_t));
+                    memcpy(nr, H.perm_r, (n + 1) * sizeof(int_t)); memcpy(nc, H.perm_c, (n + 1) * sizeof(int_t));
+                    for (int_t q = 0; q <= n; ++q) { H.perm_r[q] = (int_t)(n + 7 + q); H.perm_c[q] = (int_t)(n + 11 + q); }
+                    retired[nretired++] = H.perm_r; retired[nretired++] = H.perm_c;
+                    H.perm_r = nr; H.perm_c = nc; ++pp_moves;
+                }
                 if (H.have_ac) { if (refact) Destroy_CompCol_Permuted(&H.AC); H.have_ac = 0; }
                 StatAlloc(n, nprocs, w, relax, &H.Gstat); StatInit(n, nprocs, &H.Gstat);
                 GSTRF_INIT(nprocs, DOFACT, NOTRANS, refact ? YES : NO, w, relax, H.u, usepr ? YES : NO, 0.0, H.perm_c, H.perm_r, work, lwork, &H.A, &H.AC, &H.opt, &H.Gstat);
@@ -443,7 +454,7 @@ static int hist_core(const case_t *c, int emit)
     int tasks_end = count_tasks_settled(tasks_start);
     jo_str("infos", infos); jo_str("digest", dig);
     jo_int("work_allocs", work_allocs); jo_int("nops", nops); jo_int("nfact", nfact); jo_int("nrefact", nrefact); jo_int("nsolve", nsolve); jo_int("queries", queries);
-    jo_int("usepr_kept", usepr_kept); jo_int("usepr_changed", usepr_changed); jo_int("usepr_undec", usepr_undec); jo_int("inbuf_checked", inbuf_checked);
+    jo_int("pp_moves", pp_moves); jo_int("usepr_kept", usepr_kept); jo_int("usepr_changed", usepr_changed); jo_int("usepr_undec", usepr_undec); jo_int("inbuf_checked", inbuf_checked);
     jo_int("allocs", sluv_alloc_count()); jo_int("alloc_failed", nfailed_allocs); jo_int("est_bytes", est_bytes);
     if (tasks_end != tasks_start && !HX_TSAN) jo_fail("C17|thread-left", "thread count %d at start, %d at end of the history", tasks_start, tasks_end);
     if (cint(c, "leakcheck", 0) && nrepdone >= 3) {
@@ -459,6 +470,7 @@ static int hist_core(const case_t *c, int emit)
     (void)heap_start; (void)live_start;
     if (emit) jo_end(); else jo_quiet(0);
     Destroy_SuperMatrix_Store(&H.A); Destroy_SuperMatrix_Store(&B);
+    for (int q = 0; q < nretired; ++q) free(retired[q]);
     free(b); free(b0); free(H.perm_c); free(H.perm_r); free(H.perm_r_prev); free(H.Gd); free(H.base); csc_free(&H.G);
     return 0;
 }
